@@ -693,6 +693,51 @@ def _histories(ctx):
     return singles, pairs, triples
 
 
+def adapter_cases():
+    """condition_as_parse_action / OnlyOnce / trace_parse_action put a second _trim_arity wrapper around the user's function: a
+    TypeError raised by the BODY of that function (first call, or after calls that ended in a ParseException) must still reach
+    the caller unchanged - it is not an arity probe of either wrapper"""
+    import io, contextlib
+    import pyparsing as pp
+    out = []
+
+    def body3(s, l, t):
+        raise TypeError("boom from the body")
+
+    def body1(t):
+        raise TypeError("boom from the body")
+
+    def run(el, text="abc"):
+        buf = io.StringIO()
+        with contextlib.redirect_stdout(buf), contextlib.redirect_stderr(buf):
+            try:
+                el.parse_string(text)
+                return "returned"
+            except pp.ParseBaseException as e:
+                return "ParseBaseException: " + type(e).__name__
+            except Exception as e:
+                return "%s: %s" % (type(e).__name__, e)
+    want = "TypeError: boom from the body"
+    W = lambda: pp.Word(pp.alphas)
+    for nm, fn in (("3-arg", body3), ("1-arg", body1)):
+        out.append(("condition_as_parse_action(%s) first call" % nm, run(W().add_parse_action(pp.condition_as_parse_action(fn))), want))
+        out.append(("OnlyOnce(%s) first call" % nm, run(W().add_parse_action(pp.OnlyOnce(fn))), want))
+        out.append(("trace_parse_action(%s) first call" % nm, run(W().add_parse_action(pp.trace_parse_action(fn))), want))
+        out.append(("plain %s first call" % nm, run(W().add_parse_action(fn)), want))
+    # after calls that ended in a ParseException (a failed condition), still no successful call
+    state = {"n": 0}
+
+    def cond(t):
+        state["n"] += 1
+        if state["n"] <= 2:
+            return False
+        raise TypeError("boom from the body")
+    el = W().add_parse_action(pp.condition_as_parse_action(cond, message="no"))
+    run(el), run(el)
+    out.append(("condition_as_parse_action after two failed conditions", run(el), want))
+    return out
+
+
 def correspond(ctx):
     import pyparsing as pp
     singles, pairs, triples = _histories(ctx)
@@ -953,6 +998,11 @@ def correspond(ctx):
     g.parse_string("ab")
     ctx.coverage_extra["observation_notany_main_pass_fires_inner_action"] = len(fired)
 
+    # ---------------- adapters that wrap the user's callable in a second _trim_arity wrapper
+    for name, got, want in adapter_cases():
+        ctx.case("adapter|" + name, True, True)
+        if got != want:
+            ctx.violation("adapter:" + name, "%s: %r, expected %r" % (name, got, want), {"kind": "adapter"})
     # ---------------- D
     cc = c_callables()
     exprsD, namesD = [], sorted(cc)
@@ -1092,5 +1142,10 @@ def replay(ctx, obj):
         except TypeError as e:
             print(e)
             return "expected str instance" in str(e)
+    if r.get("kind") == "adapter":
+        bad = [(n, g, w) for n, g, w in adapter_cases() if g != w]
+        for x in bad:
+            print("%s: %r, expected %r" % x)
+        return not bad
     print("replay names a broken proof/correspondence obligation: %r" % (r,))
     return False
